@@ -284,3 +284,12 @@ def eval_cond_full(c, env):
     if c[0] == 'truth':
         return evaluate(c[1], env) != 0
     raise CannotEvaluate(repr(c))
+
+
+def returned_arrays(kernel):
+    """distinct arrays (by identity) returned by an interpreted kernel - several return statements may return the same"""
+    out = []
+    for v, g in kernel.returns:
+        if isinstance(v, Arr) and not any(v is o for o in out):
+            out.append(v)
+    return out
